@@ -213,8 +213,11 @@ def enum_cases(rng, tier):
             for name, w in fl:
                 if name in enum_fields and name not in fixed:
                     for code in range(1 << w):
-                        for mode in ('zeros', 'ones', 'random', 'random'):
-                            vals = gen.rand_values(rng, fl, mode)
+                        # neighbours all zeros / all ones / random, then one identity of every station class of
+                        # ITU-R M.585 (a code's meaning must not depend on who transmits it)
+                        for mode in ['zeros', 'ones', 'random', 'random'] + list(range(gen.IDENTITY_CLASSES)):
+                            vals = gen.rand_values(rng, fl, mode if isinstance(mode, str) else 'mixed')
+                            if not isinstance(mode, str): vals['mmsi'] = gen.identity_of_class(rng, mode)
                             vals.update(fixed); vals['type'] = t; vals[name] = code
                             bits = gen.bits_of(fl, vals)
                             if t in (7, 13): bits += '0' * 32
